@@ -150,7 +150,7 @@ Proof.
   intros r. destruct r as [x|e]; [apply AC_ret|]. destruct e; apply AC_ret.
 Qed.
 
-Lemma bn_ssa_child c kc observed d : all_calls benign (ssa_child c kc observed d).
+Lemma bn_ssa_child c kc parent observed d : all_calls benign (ssa_child c kc parent observed d).
 Proof.
   unfold ssa_child. cbv zeta. apply all_calls_bind.
   - destruct observed as [old|]; [|apply AC_ret].
